@@ -26,7 +26,7 @@ BOUNDS = {
 ASSUMPTIONS = [
     'channel maps: distinct values in [0, n_channels_dat_p); positions: non-negative reals, distinct within a '
     'probe; index tables: channel table entries in [0, C_p), template table entries in [0, T_p), dtype int32 or '
-    'uint32 by configuration; template dtype float32/float64 by configuration',
+    'uint32 by configuration; template dtype float32/float64 per probe by configuration (mixed included)',
     'channel and template *counts* per probe are concrete (non-uniform tuples included)',
     'load_model at the end of merge() replaced by a no-op; raw open(r+b) writes are modelled at element '
     'granularity on the virtual npy file',
@@ -50,7 +50,9 @@ def configs(tier):
             out.append({'P': P, 'spikes': [2] * P, 'nch': nch, 'ntpl': ntpl, 'nsw': 2, 'sym': 'channels',
                         'table_dtypes': [tdt] * P, 'map_dtypes': ['int32' if (k + p) % 2 else 'int64' for p in range(P)]
                         if tdt == 'int32' else ['uint32'] * P,
-                        'tpl_dtype': 'float32' if k % 2 else 'float64', 'optional_matrices': k % 3 == 0})
+                        'tpl_dtypes': [['float32', 'float64'][(k + p + (tdt == 'uint32')) % 2] if k % 2 else
+                                       ['float32', 'float64'][k % 4 // 2] for p in range(P)],
+                        'optional_matrices': k % 3 == 0})
     return out
 
 
@@ -101,6 +103,16 @@ def run_config(cfg, e):
                 obl.append((cp.a[g] == p, 'channel %d not labelled with probe %d' % (g, p)))
                 obl.append((pos.a[g, 0] == pr.pos[c][0] + d, 'x of channel %d is not a translation of its probe geometry' % g))
                 obl.append((pos.a[g, 1] == pr.pos[c][1], 'y of channel %d changed' % g))
+        # known finding C12-zero-width-probe: a probe whose channels all share one x (zero x extent)
+        # followed by a probe that has a channel at x == 0 is translated by 0 and overlaps
+        kn = []
+        for p in range(1, P):
+            prev, cur = probes[p - 1], probes[p]
+            zero_w = sand(*[xy[0] == prev.pos[0][0] for xy in prev.pos])
+            at0 = sor(*[xy[0] == 0 for xy in cur.pos])
+            kn.append(sand(zero_w, at0))
+        if kn:
+            e.note_known(sor(*kn), 'probes overlap along x (known finding C12-zero-width-probe)')
         # different probes are kept apart along x: every channel of probe p is right of every channel of p-1
         for p in range(1, P):
             for c in range(probes[p].C):
@@ -229,6 +241,13 @@ def replay(case):
 
 
 def classify(case, failure):
+    if 'apart along x' in str(failure) or 'overlap along x' in str(failure):
+        pr = case['probes']
+        for p in range(1, len(pr)):
+            xs_prev = [xy[0] for xy in pr[p - 1]['pos']]
+            xs = [xy[0] for xy in pr[p]['pos']]
+            if max(xs_prev) == min(xs_prev) and min(xs) == 0:
+                return 'C12-zero-width-probe'
     return None
 
 
